@@ -630,3 +630,60 @@ def active_process_discipline(ctx, prop):
                                   'Process._resume clears env.active_process on a path that goes on to resume the generator again [%s]' % p.cond_str()[:160],
                                   where='%s:%d' % (f.module.relpath, e.lineno))
     ctx.floor(rule, n, 1, 'exits of Process._resume')
+
+
+def agenda_readers(ctx, prop):
+    """what is on the agenda (peek(), the queue itself) may steer only the kernel's own stepping: model code that looks at
+    it sees the private stop sentinel of run(until=number) and so behaves differently depending on how the run is driven"""
+    rule = prop + '.W.agenda-readers'
+    allowed = {'Environment.__init__', 'Environment.peek', 'Environment.step', 'Environment.run', 'Environment.schedule',
+               'RealtimeEnvironment.step'}
+    n = 0
+    for f in ctx.repo.all_functions():
+        if f.cls is not None and f.cls.is_subclass_of('BaseResource'):
+            continue        # Resource._queue is the request queue (a different object)
+        for node in walk_local(f.node):
+            is_peek = isinstance(node, ast.Call) and isinstance(node.func, ast.Attribute) and node.func.attr == 'peek'
+            is_q = isinstance(node, ast.Attribute) and node.attr == '_queue'
+            if not (is_peek or is_q):
+                continue
+            n += 1
+            ok = root_callers(ctx.repo, f, stop=tuple(allowed)) <= allowed
+            ctx.ob(rule, ok)
+            if not ok:
+                ctx.touch(f)
+                ctx.violation(rule, '%s::%s' % (f.module.relpath, f.qualname), 'reads the agenda',
+                              '%s looks at the agenda (%s): what it does then depends on whether run() has its stop sentinel queued, '
+                              'i.e. on how the run is split' % (f.qualname, 'peek()' if is_peek else '_queue'),
+                              where='%s:%d' % (f.module.relpath, node.lineno))
+            else:
+                ctx.sample(rule, '%s::%s' % (f.module.relpath, f.qualname), 'agenda read inside the kernel stepping code')
+    ctx.floor(rule, n, 7, 'agenda reads')
+
+
+def condition_detachers(ctx, prop):
+    """a condition's _check subscriptions are removed only by the condition itself, once it is decided"""
+    rule = prop + '.W.check-detach'
+    allowed = {'Condition._check', 'Condition._build_value', 'Condition._remove_check_callbacks'}
+    n = 0
+    for f in ctx.repo.all_functions():
+        for node in walk_local(f.node):
+            hit = None
+            if isinstance(node, ast.Call) and isinstance(node.func, ast.Attribute):
+                if node.func.attr == '_remove_check_callbacks':
+                    hit = 'calls _remove_check_callbacks()'
+                elif node.func.attr == 'remove' and node.args and isinstance(node.args[0], ast.Attribute) and node.args[0].attr == '_check':
+                    hit = 'removes a _check subscription'
+            if hit is None:
+                continue
+            n += 1
+            ok = root_callers(ctx.repo, f, stop=tuple(allowed)) <= allowed
+            ctx.ob(rule, ok)
+            if not ok:
+                ctx.touch(f)
+                ctx.violation(rule, '%s::%s' % (f.module.relpath, f.qualname), hit,
+                              '%s %s: a condition that is still undecided stops watching its operands and can never fire' % (f.qualname, hit),
+                              where='%s:%d' % (f.module.relpath, node.lineno))
+            else:
+                ctx.sample(rule, '%s::%s' % (f.module.relpath, f.qualname), 'detaching done by the condition itself')
+    ctx.floor(rule, n, 3, 'detach sites')
